@@ -17,7 +17,7 @@ Theorem C19_fresh_if_mtime_and_stamp_change : forall vs v0 ops,
   (forall v1 v2, In v1 vs -> In v2 vs -> v_secs v1 = v_secs v2 -> v_nanos v1 = v_nanos v2 -> same_data v1 v2) ->
   (forall v1 v2, In v1 vs -> In v2 vs -> v_len v1 = v_len v2 -> v_secs v1 = v_secs v2 -> same_data v1 v2) ->
   In v0 vs -> (forall v, In (Write v) ops -> In v vs) ->
-  forall o, In o (run code_fkey code_skey (init v0) ops) -> obs_fresh o = true \/ exists b t, o = ODict b t.
+  forall o, In o (run code_fkey code_skey (init v0) ops) -> obs_fresh o = true \/ exists b t u, o = ODict b t u.
 Proof. exact fresh_if_mtime_and_stamp_change. Qed.
 
 (* the histories the property names are stale in the faithful model *)
@@ -38,7 +38,7 @@ Proof. exact stale_same_second_same_len_refuted. Qed.
 
 Theorem C19_dict_cols_never_invalidated_refuted :
   run code_fkey code_skey (init w1) [Query Build 0; DictCols; Write w2_plain; Query Build 0; DictCols]
-    = [OAns [All 1; All 1] (All 1); ODict true true; OWrite; OAns [All 2; All 2] (All 2); ODict true false].
+    = [OAns [All 1; All 1] (All 1); ODict true true false; OWrite; OAns [All 2; All 2] (All 2); ODict true false false].
 Proof. exact dict_cols_never_invalidated_refuted. Qed.
 
 (* the proposed repair (length in the footer key, nanoseconds in the stamp) is partial by necessity *)
